@@ -8,8 +8,10 @@ import FlVerif.Lemmas.Expr
 namespace Op
 open Lang
 
-/-- the names of an antecedent are usable with the engine: variables exist, hedges are registered hedges other than
-    `any`, terms belong to the variable and are not hedge names; `any` is a registered hedge where it is used -/
+/-- the names of an antecedent are usable with the engine: variables exist *and have at least one term* (`findVar`
+    follows Python's `if variable:`, which is false for a variable without terms - this matters for `v is any`),
+    hedges are registered hedges other than `any`, terms belong to the variable and are not hedge names; `any` is a
+    registered hedge where it is used -/
 def AnteOK (e : EngineInfo) : Ante → Prop
   | .prop v hs t => (e.findVar v).isSome = true ∧ (∀ h ∈ hs, e.hedges.contains h = true ∧ h ≠ "any") ∧
       (((e.findVar v).map (·.terms)).getD []).contains t = true ∧ e.hedges.contains t = false
@@ -18,7 +20,7 @@ def AnteOK (e : EngineInfo) : Ante → Prop
   | .conj l r => AnteOK e l ∧ AnteOK e r
   | .disj l r => AnteOK e l ∧ AnteOK e r
 
-/-- the keywords are not variable names -/
+/-- the keywords are not names of variables that the loader recognises (variables with at least one term) -/
 def EngineOK (e : EngineInfo) : Prop := (e.findVar "and").isSome = false ∧ (e.findVar "or").isSome = false
 
 theorem aLoop_hedges (e : EngineInfo) (v : String) (hs0 hs : List String) (t : Option String) (rest : List String)
